@@ -212,6 +212,8 @@ int main(int argc, char** argv) {
     } catch (MexError& e) {
       std::string m = e.what(); for (auto& ch : m) if (ch == '\n') ch = ' ';
       printf("MEXERROR %s\n", m.c_str());
+    } catch (std::exception& e) {
+      printf("MEXERROR simulator: %s\n", e.what());
     }
     dump_state();
   }
